@@ -230,8 +230,10 @@ def r5_join(ctx, prog):
         flag_w = q.writes(cl, 'Data::' + info['flag'])
         notif = [st for st in cl.stmts if st and q.is_call(st, fn='notify_all', cls='std::condition_variable')]
         joins = [st for st in cl.stmts if st and q.is_call(st, fn='join', cls='std::thread')]
-        if not flag_w or not notif or not joins:
-            raise AnalysisBroken('%s::cleanup: flag store / notify_all / join missing (%d/%d/%d)' % (cls, len(flag_w), len(notif), len(joins)))
+        if not flag_w:
+            raise AnalysisBroken('%s::cleanup: stop-flag store not found' % cls)
+        ctx.ob('C05.R5', '%s|notifies' % cl.name, bool(notif), 'cleanup wakes all waiting workers (notify_all)', where=cl.loc(cl.body))
+        ctx.ob('C05.R5', '%s|joins' % cl.name, bool(joins), 'cleanup joins worker threads', where=cl.loc(cl.body))
         for n in notif:
             np_ = q.pt(cl, n)
             ctx.ob('C05.R5', '%s|flag-before-notify' % cl.name, any(cl.cfg.dominates(q.pt(cl, w_), np_) for w_ in flag_w),
